@@ -10,6 +10,9 @@ Base/Endian.vos Base/Endian.vok Base/Endian.required_vos: Base/Endian.v Base/Byt
 Base/Table.vo Base/Table.glob Base/Table.v.beautified Base/Table.required_vo: Base/Table.v Base/Bytes.vo
 Base/Table.vio: Base/Table.v Base/Bytes.vio
 Base/Table.vos Base/Table.vok Base/Table.required_vos: Base/Table.v Base/Bytes.vos
+Gen/CmdTable.vo Gen/CmdTable.glob Gen/CmdTable.v.beautified Gen/CmdTable.required_vo: Gen/CmdTable.v 
+Gen/CmdTable.vio: Gen/CmdTable.v 
+Gen/CmdTable.vos Gen/CmdTable.vok Gen/CmdTable.required_vos: Gen/CmdTable.v 
 Gen/Crc16.vo Gen/Crc16.glob Gen/Crc16.v.beautified Gen/Crc16.required_vo: Gen/Crc16.v 
 Gen/Crc16.vio: Gen/Crc16.v 
 Gen/Crc16.vos Gen/Crc16.vok Gen/Crc16.required_vos: Gen/Crc16.v 
@@ -19,9 +22,15 @@ Gen/Crc64.vos Gen/Crc64.vok Gen/Crc64.required_vos: Gen/Crc64.v
 Gen/Resp.vo Gen/Resp.glob Gen/Resp.v.beautified Gen/Resp.required_vo: Gen/Resp.v 
 Gen/Resp.vio: Gen/Resp.v 
 Gen/Resp.vos Gen/Resp.vok Gen/Resp.required_vos: Gen/Resp.v 
+Model/CmdFilter.vo Model/CmdFilter.glob Model/CmdFilter.v.beautified Model/CmdFilter.required_vo: Model/CmdFilter.v Base/Bytes.vo Model/Filter.vo Gen/CmdTable.vo
+Model/CmdFilter.vio: Model/CmdFilter.v Base/Bytes.vio Model/Filter.vio Gen/CmdTable.vio
+Model/CmdFilter.vos Model/CmdFilter.vok Model/CmdFilter.required_vos: Model/CmdFilter.v Base/Bytes.vos Model/Filter.vos Gen/CmdTable.vos
 Model/Digest.vo Model/Digest.glob Model/Digest.v.beautified Model/Digest.required_vo: Model/Digest.v Base/Bytes.vo Base/Table.vo Base/Endian.vo Spec/Crc64.vo Gen/Crc64.vo
 Model/Digest.vio: Model/Digest.v Base/Bytes.vio Base/Table.vio Base/Endian.vio Spec/Crc64.vio Gen/Crc64.vio
 Model/Digest.vos Model/Digest.vok Model/Digest.required_vos: Model/Digest.v Base/Bytes.vos Base/Table.vos Base/Endian.vos Spec/Crc64.vos Gen/Crc64.vos
+Model/Filter.vo Model/Filter.glob Model/Filter.v.beautified Model/Filter.required_vo: Model/Filter.v Base/Bytes.vo Base/Dec.vo Gen/Crc16.vo
+Model/Filter.vio: Model/Filter.v Base/Bytes.vio Base/Dec.vio Gen/Crc16.vio
+Model/Filter.vos Model/Filter.vok Model/Filter.required_vos: Model/Filter.v Base/Bytes.vos Base/Dec.vos Gen/Crc16.vos
 Model/RespCodec.vo Model/RespCodec.glob Model/RespCodec.v.beautified Model/RespCodec.required_vo: Model/RespCodec.v Base/Bytes.vo Base/Dec.vo Gen/Resp.vo
 Model/RespCodec.vio: Model/RespCodec.v Base/Bytes.vio Base/Dec.vio Gen/Resp.vio
 Model/RespCodec.vos Model/RespCodec.vok Model/RespCodec.required_vos: Model/RespCodec.v Base/Bytes.vos Base/Dec.vos Gen/Resp.vos
@@ -31,6 +40,9 @@ Model/Slot.vos Model/Slot.vok Model/Slot.required_vos: Model/Slot.v Base/Bytes.v
 Model/SlotKeys.vo Model/SlotKeys.glob Model/SlotKeys.v.beautified Model/SlotKeys.required_vo: Model/SlotKeys.v Base/Bytes.vo Base/Table.vo Base/Dec.vo Spec/Crc16.vo Gen/Crc16.vo
 Model/SlotKeys.vio: Model/SlotKeys.v Base/Bytes.vio Base/Table.vio Base/Dec.vio Spec/Crc16.vio Gen/Crc16.vio
 Model/SlotKeys.vos Model/SlotKeys.vok Model/SlotKeys.required_vos: Model/SlotKeys.v Base/Bytes.vos Base/Table.vos Base/Dec.vos Spec/Crc16.vos Gen/Crc16.vos
+Proofs/CmdFilterProofs.vo Proofs/CmdFilterProofs.glob Proofs/CmdFilterProofs.v.beautified Proofs/CmdFilterProofs.required_vo: Proofs/CmdFilterProofs.v Base/Bytes.vo Model/Filter.vo Model/CmdFilter.vo Gen/CmdTable.vo
+Proofs/CmdFilterProofs.vio: Proofs/CmdFilterProofs.v Base/Bytes.vio Model/Filter.vio Model/CmdFilter.vio Gen/CmdTable.vio
+Proofs/CmdFilterProofs.vos Proofs/CmdFilterProofs.vok Proofs/CmdFilterProofs.required_vos: Proofs/CmdFilterProofs.v Base/Bytes.vos Model/Filter.vos Model/CmdFilter.vos Gen/CmdTable.vos
 Proofs/Crc64Proofs.vo Proofs/Crc64Proofs.glob Proofs/Crc64Proofs.v.beautified Proofs/Crc64Proofs.required_vo: Proofs/Crc64Proofs.v Base/Bytes.vo Base/Table.vo Base/Endian.vo Spec/Crc64.vo
 Proofs/Crc64Proofs.vio: Proofs/Crc64Proofs.v Base/Bytes.vio Base/Table.vio Base/Endian.vio Spec/Crc64.vio
 Proofs/Crc64Proofs.vos Proofs/Crc64Proofs.vok Proofs/Crc64Proofs.required_vos: Proofs/Crc64Proofs.v Base/Bytes.vos Base/Table.vos Base/Endian.vos Spec/Crc64.vos
@@ -55,6 +67,9 @@ Props/C10.vos Props/C10.vok Props/C10.required_vos: Props/C10.v Base/Bytes.vos B
 Props/C11.vo Props/C11.glob Props/C11.v.beautified Props/C11.required_vo: Props/C11.v Base/Bytes.vo Base/Endian.vo Spec/Crc64.vo Gen/Crc64.vo Model/Digest.vo Proofs/Crc64Proofs.vo Proofs/DigestProofs.vo
 Props/C11.vio: Props/C11.v Base/Bytes.vio Base/Endian.vio Spec/Crc64.vio Gen/Crc64.vio Model/Digest.vio Proofs/Crc64Proofs.vio Proofs/DigestProofs.vio
 Props/C11.vos Props/C11.vok Props/C11.required_vos: Props/C11.v Base/Bytes.vos Base/Endian.vos Spec/Crc64.vos Gen/Crc64.vos Model/Digest.vos Proofs/Crc64Proofs.vos Proofs/DigestProofs.vos
+Props/C13.vo Props/C13.glob Props/C13.v.beautified Props/C13.required_vo: Props/C13.v Base/Bytes.vo Model/Filter.vo Model/CmdFilter.vo Gen/CmdTable.vo Proofs/CmdFilterProofs.vo
+Props/C13.vio: Props/C13.v Base/Bytes.vio Model/Filter.vio Model/CmdFilter.vio Gen/CmdTable.vio Proofs/CmdFilterProofs.vio
+Props/C13.vos Props/C13.vok Props/C13.required_vos: Props/C13.v Base/Bytes.vos Model/Filter.vos Model/CmdFilter.vos Gen/CmdTable.vos Proofs/CmdFilterProofs.vos
 Props/C15.vo Props/C15.glob Props/C15.v.beautified Props/C15.required_vo: Props/C15.v Base/Bytes.vo Base/Dec.vo Spec/Crc16.vo Spec/Slot.vo Gen/Crc16.vo Model/Slot.vo Proofs/SlotProofs.vo
 Props/C15.vio: Props/C15.v Base/Bytes.vio Base/Dec.vio Spec/Crc16.vio Spec/Slot.vio Gen/Crc16.vio Model/Slot.vio Proofs/SlotProofs.vio
 Props/C15.vos Props/C15.vok Props/C15.required_vos: Props/C15.v Base/Bytes.vos Base/Dec.vos Spec/Crc16.vos Spec/Slot.vos Gen/Crc16.vos Model/Slot.vos Proofs/SlotProofs.vos
